@@ -7,7 +7,7 @@ LOGIC = {"Not", "And", "Or", "Xor", "Implies", "IfThenElse", "ForceApplyNOptiona
 
 
 def can_permute_cons(p):
-    return not any(c["cls"] in LOGIC for c in p["cons"])
+    return not any(c["cls"] in LOGIC or c.get("before_g") or c.get("after_g") for c in p["cons"])
 
 
 def _map_expr(x, tm):
@@ -78,6 +78,9 @@ def permute(p, order):
                 c[k] = [op(o) for o in c[k]]
         if "cons" in c:
             c["cons"] = [cm[i] for i in c["cons"]]
+        for k in ("before_g", "after_g"):
+            if c.get(k):
+                c[k] = cm[c[k]]
         if "ind" in c:
             c["ind"] = im[c["ind"]]
         return c
